@@ -53,6 +53,8 @@ pub struct Checker {
     /// sessions whose timeout-disconnect is justified by an injected fault / silent server
     pub excused: HashMap<usize, String>,
     pub unwind_ctx: Option<String>,
+    /// the message currently being handled by the client: (session, provenance, bytes)
+    pub cur: Option<(usize, Tag, Bytes)>,
     /// hashes of start points the client may legitimately use (collected before the event)
     pub allowed_starts: HashSet<Vec<u8>>,
     pub c07: crate::oracle2::C07State,
@@ -202,7 +204,31 @@ impl Checker {
         if !deviating {
             // a protocol-following peer got banned
             let code = reason.split(':').next().unwrap_or(reason).to_string();
-            let clause = format!("honest_peer_banned:{}", normalize(&code));
+            let mut clause = format!("honest_peer_banned:{}", normalize(&code));
+            if let Some((s, tag, _)) = self.cur.as_ref() {
+                if *s == session && tag.honest && tag.kind == Kind::SendLastStateProof {
+                    let asked_samples = tag
+                        .request
+                        .as_ref()
+                        .and_then(|r| {
+                            packed::LightClientMessageReader::from_compatible_slice(r)
+                                .ok()
+                                .map(|m| match m.to_enum() {
+                                    packed::LightClientMessageUnionReader::GetLastStateProof(
+                                        r,
+                                    ) => !r.difficulties().is_empty(),
+                                    _ => false,
+                                })
+                        })
+                        .unwrap_or(false);
+                    if let Some(l) = tag.layout.as_ref() {
+                        if asked_samples && l.sampled.is_empty() && !l.tip_changed {
+                            clause = "honest_peer_banned:proof_whose_samples_all_fall_into_last_n"
+                                .to_string();
+                        }
+                    }
+                }
+            }
             sim.violate(
                 "C05",
                 &clause,
@@ -243,15 +269,10 @@ impl Checker {
     }
 
     pub fn on_server_silent(&mut self, sim: &mut Sim, session: usize, what: &str, why: &str) {
-        // The model refused to answer a request of the client: in an honest-only world the
-        // request itself is at fault (C15 for proof requests).
-        if what == "GetLastStateProof" {
-            sim.violate(
-                "C15",
-                &format!("request_unanswerable:{}", normalize(why)),
-                format!("an honest server cannot answer the client's GetLastStateProof: {}", why),
-            );
-        }
+        // The model refused to answer a request of the client (the direct C15 checks judge
+        // the request itself); the resulting timeout is not the peer's fault.
+        let _ = what;
+        sim.stat("probe.server_refused_request");
         self.excused.insert(session, format!("server silent: {}", why));
     }
 
@@ -264,6 +285,7 @@ impl Checker {
         tag: &Tag,
     ) {
         self.collect_allowed_starts(sim);
+        self.cur = Some((session, tag.clone(), data.clone()));
         if !tag.honest {
             self.c01.crafted_sessions.insert(session);
         }
@@ -287,6 +309,7 @@ impl Checker {
         crate::oracle2::c06_after(self, sim, session, proto, data, tag);
         crate::oracle2::c11_after(self, sim, session, proto, data, tag);
         crate::oracle2::c16_after_deliver(self, sim, session, proto, data, tag);
+        self.cur = None;
     }
 
     pub fn before_timer(&mut self, sim: &mut Sim, proto: Proto, token: u64) {
@@ -313,6 +336,11 @@ impl Checker {
         let h = crate::entropy::mix(&[crate::entropy::hash_str(&sim.last_event_kind), st]);
         sim.coverage.insert(h);
         // caught-up instants
+        if sim.trace.is_some() && sim.events % 50 == 0 {
+            let d = self.describe_progress(sim);
+            let t = self.tip_is_best(sim);
+            sim.log(format!("progress: tip_is_best={} {}", t, d));
+        }
         if self.is_caught_up(sim) {
             sim.stat("probe.caught_up_instant");
             self.caught_up_times.push(sim.now);
